@@ -447,8 +447,52 @@ def r10_asdict_keys(ctx):
     ctx.need('R10.asdict-keys', 1)
 
 
+def r11_export_identity(ctx):
+    """R11: a constant written out in place of a held value is numerically that value: wherever an element's to_json chooses between
+    a numeric constant and `self.<field>` (the -0.0 -> 0 normalisation of Edfa.tilt_target), the constant is chosen only under
+    `self.<field> == K` with K equal to it - under any wider test (>=, <=, !=, another field) the reloaded network differs
+    from the exported one and the redesign starts from other settings"""
+    repo = ctx.repo
+    n_sites = 0
+    for cls in repo.module(EL).classes.values():
+        tj = cls.getters.get('to_json') or cls.methods.get('to_json')
+        if tj is None:
+            continue
+        for e in ast.walk(tj.node):
+            if isinstance(e, ast.IfExp):
+                arms = [(e.body, e.orelse, True), (e.orelse, e.body, False)]
+            elif isinstance(e, ast.If) and len(e.body) == 1 and len(e.orelse) == 1 and all(
+                    isinstance(b, ast.Assign) and len(b.targets) == 1 for b in (e.body[0], e.orelse[0])) and \
+                    ast.unparse(e.body[0].targets[0]) == ast.unparse(e.orelse[0].targets[0]):
+                arms = [(e.body[0].value, e.orelse[0].value, True), (e.orelse[0].value, e.body[0].value, False)]
+            else:
+                continue
+            for const, held, on_true in arms:
+                if not (isinstance(const, ast.Constant) and isinstance(const.value, (int, float)) and not isinstance(const.value, bool)):
+                    continue
+                if not (isinstance(held, ast.Attribute) and isinstance(held.value, ast.Name) and held.value.id == 'self'):
+                    continue
+                n_sites += 1
+                t = e.test
+                want = ast.Eq if on_true else ast.NotEq
+                sides = [t.left, t.comparators[0]] if isinstance(t, ast.Compare) and len(t.ops) == 1 else []
+                ks = []
+                for x in sides:
+                    try:
+                        ks.append(ast.literal_eval(x))
+                    except Exception:
+                        pass
+                ok = bool(sides) and isinstance(t.ops[0], want) and any(ast.unparse(x) == ast.unparse(held) for x in sides) and \
+                    len(ks) == 1 and isinstance(ks[0], (int, float)) and ks[0] == const.value
+                ctx.check('R11.export-identity', f'{site(tj, e)} {ast.unparse(held)}', ok, key(tj, f'identity|{held.attr}'),
+                          f'{cls.name}.to_json writes {const.value!r} in place of {ast.unparse(held)} whenever `{ast.unparse(t)}`, which is not '
+                          f'"the held value equals {const.value!r}": a value set by the user or by the design is exported as another one, '
+                          'so export -> reload -> redesign changes the network', ast.unparse(e)[:200])
+    ctx.need('R11.export-identity', 1)
+
+
 from ..presence import rule_for as _presence_rule
 
 RULES_PRESENCE = ('Rp.presence', _presence_rule('C17', 'a value of exactly 0 would be exported as missing and re-designed on reload'))
 
-RULES = [('R5.handoff', r5_handoff), ('R1.bracket', r1_bracket), ('R2.completeness', r2_completeness), ('R3.fix-point', r3_fixpoints), ('R4.keys', r4_keys), RULES_PRESENCE, ('R6.padding-cache', r6_padding_cache), ('Rx.export-keys', rx_export_keys), ('R7.design-inputs', r7_design_inputs), ('Rz.sentinel', rs_sentinel), ('R8.export-guards', r8_export_guards), ('R9.library-and-raw-export', r9_library_and_raw_export), ('R10.asdict-keys', r10_asdict_keys)]
+RULES = [('R5.handoff', r5_handoff), ('R1.bracket', r1_bracket), ('R2.completeness', r2_completeness), ('R3.fix-point', r3_fixpoints), ('R4.keys', r4_keys), RULES_PRESENCE, ('R6.padding-cache', r6_padding_cache), ('Rx.export-keys', rx_export_keys), ('R7.design-inputs', r7_design_inputs), ('Rz.sentinel', rs_sentinel), ('R8.export-guards', r8_export_guards), ('R9.library-and-raw-export', r9_library_and_raw_export), ('R10.asdict-keys', r10_asdict_keys), ('R11.export-identity', r11_export_identity)]
